@@ -13,6 +13,8 @@ import Enc.Spec.Json.DynNumber
 import Enc.Model.Json.Own
 import Enc.Spec.Json.Cyclic
 import Enc.Driver.JsonFields
+import Enc.Spec.Json.RoundTrip
+import Enc.Model.Json.MapOrder
 /-! line-protocol handlers, area `json` (syntax layer). -/
 namespace Enc.Driver.Json
 open Enc
@@ -162,6 +164,27 @@ def handle (op : String) (args : List String) : Option (String × String × Stri
   | "json.encstr", [html, h] => do
     let s ← fromHex h
     pure (toHex (Model.Json.encodeString s (html == "1")), toHex (Spec.Json.appendString s (html == "1")), "")
+  -- json.strrt <html> <hex>: the string decoder model applied to the string encoder model's output (C14 round trip);
+  -- the validator and tokenizer models must accept that output as one string value / one token
+  | "json.strrt", [html, h] => do
+    let s ← fromHex h
+    let enc := Model.Json.encodeString s (html == "1")
+    let m := match Model.Json.unmarshalString enc with | some v => "ok:" ++ toHex v | none => "err"
+    let m := if Model.Json.valid enc then m else "err:output-not-valid"
+    let (toks, terr) := Model.Json.Token.tokens enc
+    let m := if terr || toks.length != 1 then m ++ ";tokens=" ++ toString toks.length
+             else if toks.all (fun t => t.value == enc) then m else m ++ ";token-differs"
+    pure (m, "ok:" ++ toHex (Spec.Json.coerceUTF8 s), "")
+  -- json.maporder <html> <entries>: map[string]string rendered with SortMapKeys (the order given is irrelevant: keys are
+  -- distinct); ";perm" = the output without the flag is a permutation of it (theorem Props.C14.sortMapKeys_members_perm)
+  | "json.maporder", [html, es] => do
+    let m : Option Model.Json.MapOrder.Entries ←
+      if es == "nil" then pure none
+      else if es == "empty" then pure (some [])
+      else ((es.splitOn ",").mapM (fun (e : String) => match e.splitOn ":" with
+        | [k, v] => (fromHex k).bind fun kb => (fromHex v).map fun vb => (kb, vb)
+        | _ => none)).map some
+    pure (toHex (Model.Json.MapOrder.encodeMapStringString (html == "1") true m) ++ ";perm", "-", "")
   | "json.fields", [d] => Driver.JsonFields.run d
   | "json.fieldsnil", [d] => Driver.JsonFields.runNil d
   | "json.fieldsvis", [d] => Driver.JsonFields.runVisible d
